@@ -147,6 +147,11 @@ theorem WStable.maybeQueuePingreq {w w' : World} {now : Nat} (heq : w.maybeQueue
   · simp at heq
   · simp at heq; subst heq; exact hq.sess _ _ h
 
+theorem WStable.failStep (w : World) (ctx : StepCtx) (st : Outbound.Step) (h : Q w) : Q (w.failStep ctx st) := by
+  rcases failStep_cases w ctx st with e | e <;> rw [e]
+  · exact h
+  · exact hq.handleDisconnect _ h
+
 theorem WStable.discFail (w : World) (ctx : StepCtx) (h : Q w) : Q (w.discFail ctx) := by
   rcases discFail_cases w ctx with ⟨e, _⟩ | ⟨e, _⟩ <;> rw [e]
   · exact h
@@ -214,7 +219,7 @@ theorem wstep_performStep (fuel : Nat) (ih : WMachine Q fuel) :
   obtain ⟨_, _, i3, i4, i5, _⟩ := ih
   simp only [performStep]
   split
-  · exact hq.finishErr _ _ _ (hq.discFail _ _ h)
+  · exact hq.finishErr _ _ _ (hq.failStep _ _ _ h)
   · exact i5 _ _ _ h
   · split
     · exact hq.finishErr _ _ _ (hq.discFail _ _ h)
